@@ -5,7 +5,7 @@
 # usage: confirm_mutant.sh <dir-with-patch.diff-and-demo/> ; prints a JSON summary
 set -u
 D=$(cd "$1" && pwd)
-WT=/tmp/mut/confirm
+WT=${CONFIRM_WT:-/tmp/mut/confirm}
 if [ ! -d $WT ]; then git -C /repo worktree add --detach $WT HEAD >/dev/null 2>&1 || exit 3; fi
 cd $WT && git checkout -q -- . && git clean -fdq -e target
 suite() { # prints "d c a" pass counts
